@@ -50,7 +50,7 @@ fn hostile_block(name: &str, rng: &mut Rng) -> String {
                     }
                 }
             }
-            InSpec { pkts, len, seed: rng.next() >> 8, m, tbl, tags: gen_tags(rng, len, false) }
+            InSpec { pkts, len, seed: rng.next() >> 8, m, tbl, tags: gen_tags(rng, len, false), fixed: None }
         })
         .collect();
     let lens: Vec<usize> = ins.iter().map(|i| i.len).collect();
